@@ -74,6 +74,8 @@ m(["C21"], "line-end-check-ignored", "src/rule_reader.rs", "                    
 m(["C21"], "rules-loaded-last-to-first", "src/rule_reader.rs", "    for rule_str in rules {\n        match parse_rule(&rule_str) {", "    for rule_str in rules.into_iter().rev() {\n        match parse_rule(&rule_str) {", "R2")
 m(["C21"], "line-appended-twice", "src/rule_reader.rs", "                                None => { long_line += &line; },", "                                None => { long_line += &line; if line_number == 1 { long_line += &line; } },", "R3")
 m(["C21"], "parsed-rule-not-added", "src/rule_reader.rs", "                previous = rule_str;\n                add_rules!(kb, rule);", "                previous = rule_str;\n                if kb.len() < 100000 { add_rules!(kb, rule); }", None)
+m(["C21"], "leftover-text-dropped-again", "src/rule_reader.rs", "    if rule_str.trim().len() > 0 {\n        let msg = format!(\"Missing period at end of: {}\", rule_str.trim());\n        return Err(msg);\n    }\n", "", "R4")
+m(["C20"], "term-classified-before-trimming", "src/parse_terms.rs", "    let chrs = str_to_chars!(&s);\n\n    // First, let's check for an arithmetic function", "    let chrs = str_to_chars!(to_parse);\n\n    // First, let's check for an arithmetic function", "R4")
 
 # ---------------- solver (C01-C05) ----------------
 m(["C01"], "or-tail-from-head-set", "src/solution_node_and_or.rs",
